@@ -1,0 +1,34 @@
+//go:build verif
+
+package sharedfile
+
+import (
+	"unsafe"
+
+	"github.com/go-git/go-git/v6/x/verifhook"
+)
+
+func verifPoint(name string) { verifhook.Point(name) }
+
+// verifEvent reports the state of s; it must be called with s.mu held.
+// a = refs, b = flags (1 file open, 2 closed, 4 immediateClose, 8 pooled,
+// 16 timer armed) | gen<<8, c = address of the pool handle.
+func (s *SharedFile) verifEvent(kind string) {
+	var flags int64
+	if s.file != nil {
+		flags |= 1
+	}
+	if s.closed {
+		flags |= 2
+	}
+	if s.immediateClose {
+		flags |= 4
+	}
+	if s.pool != nil {
+		flags |= 8
+	}
+	if s.timer != nil {
+		flags |= 16
+	}
+	verifhook.Event(kind, uintptr(unsafe.Pointer(s)), int64(s.refs), flags|int64(s.gen)<<8, int64(uintptr(unsafe.Pointer(&s.poolHandle))))
+}
